@@ -127,6 +127,27 @@ func Gen(t *rapid.T, c GenCfg) Prog {
 				p.Ops = append(p.Ops, Op{Kind: k, Writes: genWrites(t, p.Spec, len(p.Keys))})
 			}
 			continue
+		case "batchrot": // macro: an asynchronous burst big enough to fill a memtable, so that the rotation falls inside a write batch
+			vs := int(p.Spec.MemTableSize / 48)
+			if T := int(p.Spec.ValueThreshold); T-1 >= 32 && T-1 < vs {
+				vs = T - 1 // inline values fill the memtable fastest
+			}
+			m := int(p.Spec.MemTableSize)/(4*(vs+60)) + rapid.IntRange(1, 8).Draw(t, "batchrot")
+			if m > 60 {
+				m = 60
+			}
+			for j := 0; j < m; j++ {
+				k := "atxn"
+				if j == m-1 {
+					k = "atxnwait"
+				}
+				var ws []W
+				for x := 0; x < 4; x++ {
+					ws = append(ws, W{Key: rapid.IntRange(0, len(p.Keys)-1).Draw(t, "key"), VSize: vs})
+				}
+				p.Ops = append(p.Ops, Op{Kind: k, Writes: ws})
+			}
+			continue
 		case "compact":
 			op.A = rapid.SampledFrom([]int{0, 0, 1, 2, 3}).Draw(t, "level")
 			op.B = rapid.IntRange(0, 2).Draw(t, "worker")
